@@ -31,7 +31,9 @@ def features(sut):
         "long": sum(1 for n in m.nodes if len(stems(n)[-1]) > 74),
         "unresolved": sum(1 for p, (w, _) in owner.items() if w is None),
         "nested": sum(1 for p in m.we for q in m.we if p != q and p.startswith(q)),
-        "auto_groups": sut.stats.get("created_groups", 0),
+        "auto_groups": sut.local.get("created_groups", 0),
+        "reopens": sut.local.get("reopens", 0),
+        "deletes": sut.opcount.get("delete", 0) + sut.opcount.get("rmp", 0),
     }
     return f
 
